@@ -22,7 +22,7 @@ vars == <<ph, sel, m, nw>>
 (* chunk alphabets *)
 
 NCsmall == { <<>>, <<0>>, <<1, 97>>, <<1, 65>>, <<192, 12>>, <<192, 14>>, <<64>>, <<192>> }
-NCbig == NCsmall \cup { <<192, 13>>, <<192, 40>>, <<128, 1>>, <<63>>, <<2, 0, 0>>, <<192, 15>> }
+NCbig == NCsmall \cup { <<192, 13>>, <<128, 1>>, <<63>>, <<2, 0, 0>> }
 NC == IF Big THEN NCbig ELSE NCsmall
 
 QFix == { <<0, 1, 0, 1>>, <<0, 252, 0, 1>>, <<0, 1, 0>>, <<>> }
@@ -184,4 +184,26 @@ Emit == Done =>
                    D_xfr_unreachable_qtype |-> IF ideal.xfr # dx THEN [xfr |-> dx] ELSE [none |-> 0],
                    D_slice_iter |-> IF ideal.sl # dsl THEN [sl |-> dsl] ELSE [none |-> 0]]
   IN PrintT("CASE " \o ToJson([in |-> [m |-> m, starts |-> Starts], exp |-> ideal, dev |-> dev]))
+
+\* C19, law of the referee: the new codec's pointer rule (D_new_ptr_rule) only
+\* ever rejects more; wherever it accepts, both rules read the same item
+NewRuleStricter == Done => \A p \in Positions :
+  /\ CvName(TRUE, m, p).ok => CvName(FALSE, m, p) = CvName(TRUE, m, p)
+  /\ CvQuestion(TRUE, m, p).ok => CvQuestion(FALSE, m, p) = CvQuestion(TRUE, m, p)
+  /\ CvRecord(TRUE, m, p).ok => CvRecord(FALSE, m, p) = CvRecord(TRUE, m, p)
+\* the flattened view ends exactly where the sectioned view has its first problem
+NewViewConsistent == (Done /\ ~IsShort(m)) =>
+  LET v == NewView(FALSE, m)  S == Sections(m) IN
+  v.end = "done" => (~S.q.err /\ \A s \in 1..3 : S.sec[s].reach /\ ~S.sec[s].err
+                                   /\ \A i \in 1..Len(S.sec[s].items) : S.sec[s].items[i][7].ok)
+
+\* C19: the same messages, read item by item and as a whole by both codecs
+CStarts == IF Len(m) <= 12 THEN <<>> ELSE [i \in 1..Min(Len(m) - 12, 10) |-> 11 + i]
+EmitCodec == (Done /\ Len(m) >= 12) =>
+  LET v == CodecView(FALSE, m, CStarts)
+      vn == CodecView(TRUE, m, CStarts)
+  IN PrintT("CASE " \o ToJson(
+       [in |-> [m |-> m, starts |-> CStarts],
+        exp |-> [old |-> v, new |-> v, agree |-> TRUE],
+        dev |-> IF vn # v THEN [D_new_ptr_rule |-> [new |-> vn, agree |-> FALSE]] ELSE [none |-> 0]]))
 =============================================================================
